@@ -219,8 +219,8 @@ def h_threads(ctx):
 
 
 PARTS = [
-    Part("thread-schedules", h_threads, bound={"quick": 1, "thorough": 2}, split_depth=3, budget={"quick": 200, "thorough": 3000}, engine="E3"),
-    Part("ref-to-joserfc", h_from_ref, split_depth=2, budget={"quick": 120, "thorough": 1500}),
-    Part("joserfc-to-ref", h_to_ref, split_depth=2, budget={"quick": 120, "thorough": 1500}),
+    Part("thread-schedules", h_threads, bound={"quick": 1, "thorough": 2}, split_depth=3, budget={"quick": 2000, "thorough": 3000}, engine="E3"),
+    Part("ref-to-joserfc", h_from_ref, split_depth=2, budget={"quick": 1200, "thorough": 1500}),
+    Part("joserfc-to-ref", h_to_ref, split_depth=2, budget={"quick": 1200, "thorough": 1500}),
     _pv,
 ]
